@@ -174,10 +174,10 @@ example : NodeWF exNilKeyNode = true ∧ WT exNilKeyNode exNilKeyVal = true ∧ 
 /-- Known finding `loop-nil-key-panics`: with the key asked for, the emitted key rendering of the current
 tree dereferences the nil pointer key (`*k`): Loop panics, the property demands one callback per entry. -/
 theorem repo_not_correct_nil_key :
-    (loopM GenCfg.repo exScriptAll exFt exNilKeyNode .ptr exNilKeyVal [seg "N"]).fin = .panic ∧
+    (loopM GenCfg.original exScriptAll exFt exNilKeyNode .ptr exNilKeyVal [seg "N"]).fin = .panic ∧
     loopAccepts exScriptAll exNilKeyNode exNilKeyVal [seg "N"]
-      ((loopM GenCfg.repo exScriptAll exFt exNilKeyNode .ptr exNilKeyVal [seg "N"]).groups.map (obsOf exOracle))
-      (loopM GenCfg.repo exScriptAll exFt exNilKeyNode .ptr exNilKeyVal [seg "N"]).fin = false := by
+      ((loopM GenCfg.original exScriptAll exFt exNilKeyNode .ptr exNilKeyVal [seg "N"]).groups.map (obsOf exOracle))
+      (loopM GenCfg.original exScriptAll exFt exNilKeyNode .ptr exNilKeyVal [seg "N"]).fin = false := by
   decide
 
 /-- The repaired emitter visits both entries (empty key text for the nil key) and is accepted — an
